@@ -412,16 +412,22 @@ def _bundle_history(hist):
         pass
     # additions after elaboration (of a module that uses the bundle, as a port or internally; directly or nested in another
     # bundle) are refused and leave the bundle as it is
-    use = len(hist) % 3
+    use = (len(hist) + len(hist[0][0]) + len(hist[-1][1])) % 4
     user = h.Module(name="UserOfSubjectB")
     if use == 0:
         user.bb = bd(port=True)
     elif use == 1:
         user.bb = bd()
-    else:
+    elif use == 2:
         outer = h.Bundle(name="OuterB")
         outer.inner = bd()
         user.bb = outer()
+    else:  # two levels down
+        mid = h.Bundle(name="MidB")
+        mid.leafb = bd()
+        outer = h.Bundle(name="OuterB")
+        outer.inner = mid()
+        user.bb = outer(port=True)
     try:
         h.elaborate(user)
     except Exception as e:
@@ -439,7 +445,7 @@ def _bundle_history(hist):
                         bd.add(v)
                     else:
                         bd.add(v, name=nm)
-                    return (f"addition to a bundle after elaboration accepted ({form} of a {kind} as {nm!r}, bundle used {['as a port', 'internally', 'nested'][use]})", len(hist))
+                    return (f"addition to a bundle after elaboration accepted ({form} of a {kind} as {nm!r}, bundle used {['as a port', 'internally', 'nested', 'nested two levels down'][use]})", len(hist))
                 except Exception:
                     pass
                 if (dict(bd.namespace), dict(bd.signals), dict(bd.bundles)) != before:
